@@ -1216,7 +1216,8 @@ def m_npy_permission_notfound(case, what):
 
 def m_header_tokenerror(case, what):
     """damaged header text -> numpy lets tokenize.TokenError out, no store maps it"""
-    return case.get('kind') == 'payload' and case.get('payload') == 'hdrflip' and 'TokenError' in what
+    return (case.get('kind') == 'payload' and case.get('payload') == 'hdrflip'
+            and ('TokenError' in what or 'SyntaxError' in what))
 
 
 def m_npy_put_flush_error_swallowed(case, what):
